@@ -1,4 +1,5 @@
 """C20 - per-thread tracing override is isolated from other threads."""
+import re
 from analysis.runner import rule
 from analysis.facts import AnchorError, walk_operands
 from analysis import terms as T
@@ -218,7 +219,8 @@ def r3(ctx):
             if "LocalKey" in fa:
                 n += 1
                 r_ty = fa.rsplit(", ", 1)[-1].rstrip(">")
-                ok = "::with::<" in fa and not r_ty.startswith("&") and "*" not in r_ty
+                # `with` handing out no reference, or the by-value Cell accessors of LocalKey<Cell<T>> (get / set / take / replace)
+                ok = ("::with::<" in fa and not r_ty.startswith("&") and "*" not in r_ty) or bool(re.search(r"LocalKey::<core::cell::Cell<[^>]*>>::(get|set|take|replace)$", fa))
                 ctx.ob(f"with-call in {k.rsplit('::',1)[1]}", ok, f"{k} accesses the thread-local through {fa[:120]}", site=t.get("sp"), sample={"result type": r_ty})
     ctx.floor("LocalKey::with call sites", n, max(1, len(users_l)))
 
